@@ -93,7 +93,15 @@ const ENTITIES: [Entity; 18] = [
     },
 ];
 
-const FLOWS: [&str; 9] = ["direct-call", "let-alias", "let-annotated", "argument", "tuple-element", "returned", "array-element", "struct-field", "if-branch"];
+const FLOWS: [&str; 13] = [
+    "direct-call", "let-alias", "let-annotated", "argument", "tuple-element", "returned", "array-element", "struct-field", "if-branch",
+    // the value is named and never called (nothing pins what it is applied to)
+    "let-never-called", "let-wildcard", "statement", "let-annotated-never-called",
+];
+
+fn never_called(flow: &str) -> bool {
+    matches!(flow, "let-never-called" | "let-wildcard" | "statement" | "let-annotated-never-called")
+}
 
 fn program(e: &Entity, flow: &str) -> String {
     let fnty = format!("({}) -> {}", e.params.join(", "), e.ret);
@@ -128,6 +136,10 @@ fn program(e: &Entity, flow: &str) -> String {
             decls.push_str(&format!("struct Holder {{ f: {} }}\n", fnty));
             format!("let h = Holder {{ f: {} }};\n    let g = h.f;\n    {}", e.value, show(format!("g({})", args)))
         }
+        "let-never-called" => format!("let f = {};\n    string_println(\"named\")", e.value),
+        "let-wildcard" => format!("let _ = {};\n    string_println(\"named\")", e.value),
+        "statement" => format!("{};\n    string_println(\"named\")", e.value),
+        "let-annotated-never-called" => format!("let f: {} = {};\n    string_println(\"named\")", fnty, e.value),
         _ => format!("let c = true;\n    let g = if c {{ {} }} else {{ {} }};\n    {}", e.value, e.value, show(format!("g({})", args))),
     };
     format!("{}fn main() {{\n    {}{};\n    string_println(\"done\")\n}}\n", decls, e.pre, body)
@@ -143,7 +155,7 @@ impl Family for FnValues {
         &["C02", "C04", "C01", "C03"]
     }
     fn rule(&self) -> &'static str {
-        "18 function-like entities (top-level fn, generic fn, two-argument fn, a runtime builtin, the 9 builtins that are expanded at their call sites, an inherent method, an inherent method of a generic impl, a trait method, an enum constructor, a capture-free closure) x 9 flows of the value (called where named, let alias, annotated let, argument of a higher-order function, tuple element, returned from a function, array element, struct field, result of an if); oracle: never a panic; if accepted, the Go is valid, the stage IRs are consistent and the program prints what the direct call prints (a rejection with a diagnostic is a verdict, not a finding). non-trivial = programs in which the entity is not called where it is named; distinct = distinct source text"
+        "18 function-like entities (top-level fn, generic fn, two-argument fn, a runtime builtin, the 9 builtins that are expanded at their call sites, an inherent method, an inherent method of a generic impl, a trait method, an enum constructor, a capture-free closure) x 13 flows of the value (called where named, let alias, annotated let, argument of a higher-order function, tuple element, returned from a function, array element, struct field, result of an if; named and never called: bound by let, by let _, as a statement, by an annotated let); oracle: never a panic; if accepted, the Go is valid, the stage IRs are consistent and the program prints what the direct call prints (a rejection with a diagnostic is a verdict, not a finding). non-trivial = programs in which the entity is not called where it is named; distinct = distinct source text"
     }
     fn cases(&self, _tier: Tier) -> Box<dyn Iterator<Item = Value> + '_> {
         let mut v = Vec::new();
@@ -159,7 +171,7 @@ impl Family for FnValues {
         let (en, flow) = (case["entity"].as_str().unwrap(), case["flow"].as_str().unwrap());
         let e = ENTITIES.iter().find(|e| e.name == en).unwrap();
         let text = program(e, flow);
-        let want = format!("{}\ndone\n", e.expected);
+        let want = if never_called(flow) { "named\ndone\n".to_string() } else { format!("{}\ndone\n", e.expected) };
         let site = format!("entity={};flow={}", en, flow);
         let replay = json!({"kind": "differential", "family": "fnvalues", "case": case, "source": text, "expected": {"stdout": want, "end": "ok"}});
         if flow != "direct-call" {
